@@ -181,8 +181,85 @@ func init() {
 		if c13Count(cset, cr.Body, "w.Close()")+c13Count(cset, cr.Body, "defer w.Close()") > 0 {
 			failShape("cmdCache.Retrieve: the write end of the pipe is closed somewhere; the model assumes it never is")
 		}
+		c13WalkAction(&b)
 		return b.String()
 	}
+}
+
+// c13WalkAction (follow-up: entries that vanish during a store): what fs.Walk / fs.WalkMode do
+// with an error returned by the callback (storeFile) for an entry INSIDE a directory output.
+// godirwalk routes callback errors through Options.ErrorCallback; without one every error halts
+// the walk. The root path is Lstat'ed by WalkMode itself and its error returned directly.
+func c13WalkAction(b *strings.Builder) {
+	b.WriteString("Inductive walk_error_action := WHalt | WSkipEnoent.\n")
+	wset, wf := parseFile("src/fs/walk.go")
+	wk := findFunc(wf, "", "Walk")
+	if wk == nil || wk.Body == nil {
+		failShape("fs.Walk not found")
+	}
+	if got := strings.Join(c13Stmts(wset, wk.Body.List), " ; "); got !=
+		`return WalkMode(rootPath, func(name string, mode Mode) error { return callback(name, mode.IsDir()) })` {
+		failShape("fs.Walk: unrecognised body {%s}", got)
+	}
+	wm := findFunc(wf, "", "WalkMode")
+	if wm == nil || wm.Body == nil {
+		failShape("fs.WalkMode not found")
+	}
+	st := c13Stmts(wset, wm.Body.List)
+	if len(st) != 2 {
+		failShape("fs.WalkMode: %d statements, expected the root Lstat and the godirwalk call", len(st))
+	}
+	if st[0] != `if info, err := os.Lstat(rootPath); err != nil { return err } else if !info.IsDir() { return callback(rootPath, mode(info.Mode())) }` {
+		failShape("fs.WalkMode: unrecognised handling of the root path {%s}", st[0])
+	}
+	ret, ok := wm.Body.List[1].(*ast.ReturnStmt)
+	if !ok || len(ret.Results) != 1 {
+		failShape("fs.WalkMode: the last statement is not `return godirwalk.Walk(...)`")
+	}
+	call, ok := ret.Results[0].(*ast.CallExpr)
+	if !ok || c13Node(wset, call.Fun) != "godirwalk.Walk" || len(call.Args) != 2 || c13Node(wset, call.Args[0]) != "rootPath" {
+		failShape("fs.WalkMode: the last statement is not `return godirwalk.Walk(rootPath, &godirwalk.Options{...})`")
+	}
+	un, ok := call.Args[1].(*ast.UnaryExpr)
+	if !ok || un.Op != token.AND {
+		failShape("fs.WalkMode: options are not a &godirwalk.Options literal")
+	}
+	lit, ok := un.X.(*ast.CompositeLit)
+	if !ok || c13Node(wset, lit.Type) != "godirwalk.Options" {
+		failShape("fs.WalkMode: options are not a &godirwalk.Options literal")
+	}
+	opts := map[string]string{}
+	for _, e := range lit.Elts {
+		kv, ok := e.(*ast.KeyValueExpr)
+		if !ok {
+			failShape("fs.WalkMode: godirwalk.Options element without a key")
+		}
+		opts[c13Node(wset, kv.Key)] = c13Node(wset, kv.Value)
+	}
+	if opts["Callback"] != `func(name string, info *godirwalk.Dirent) error { return callback(name, info) }` {
+		failShape("fs.WalkMode: unrecognised godirwalk Callback {%s}", opts["Callback"])
+	}
+	delete(opts, "Callback")
+	action := "WHalt" // godirwalk's default ErrorCallback halts on every error
+	if ec, has := opts["ErrorCallback"]; has {
+		switch ec {
+		case `func(name string, err error) godirwalk.ErrorAction { return godirwalk.Halt }`,
+			`func(_ string, _ error) godirwalk.ErrorAction { return godirwalk.Halt }`:
+		case `func(name string, err error) godirwalk.ErrorAction { if os.IsNotExist(err) { return godirwalk.SkipNode } return godirwalk.Halt }`,
+			`func(_ string, err error) godirwalk.ErrorAction { if os.IsNotExist(err) { return godirwalk.SkipNode } return godirwalk.Halt }`:
+			// an entry that no longer exists when it is visited is left out and the walk goes on
+			action = "WSkipEnoent"
+		default:
+			failShape("fs.WalkMode: unrecognised godirwalk ErrorCallback {%s}", ec)
+		}
+		delete(opts, "ErrorCallback")
+	}
+	for k := range opts {
+		// Unsorted changes the member order, FollowSymbolicLinks what is archived, ...
+		failShape("fs.WalkMode: godirwalk option %s is not modelled", k)
+	}
+	b.WriteString("Definition walk_callback_error_action : walk_error_action := " + action + ".\n")
+	b.WriteString("Definition walk_root_lstat_error_returned : bool := true.\n")
 }
 
 func c13Node(fset *token.FileSet, n ast.Node) string {
